@@ -220,6 +220,10 @@ def body():
         rng = random.Random(V.seed())
         # (A) design: exhaustive
         mc = V.model_check("CertCut.tla", "CertCutThorough.cfg" if thorough else "CertCut.cfg", sc, timeout=1500)
+        # BlockRange.Gap for all pairs of well-formed 64-bit ranges (Apalache, one symbolic state; the same operators - GapOps.tla -
+        # are the ones CertCut.tla enumerates at small word widths), and the wrapping rewrite refuted
+        gap_unbounded = [V.apalache_state("GapInd.tla", sc, "GapCorrect", True, extra_files=("GapOps.tla",)),
+                         V.apalache_state("GapInd.tla", sc, "GapWrapCorrect", False, extra_files=("GapOps.tla",))]
         rb = V.replay_behaviours()
         drift = None
         if rb is not None:
@@ -321,6 +325,7 @@ def body():
             d["refused"] += 1 if e.get("ok") is False else 0
         pick = [0, n_model // 3, 2 * n_model // 3, len(cases) - 1] if rb is None else [0]
         res.coverage = dict(
+            gap_unbounded=gap_unbounded,
             states=mc["distinct"], transitions=mc["generated"],
             traces_validated_against_impl=len(cases),
             samples=[dict(case=cases[i], recorded=evs[i + 1]) for i in pick],
